@@ -114,7 +114,10 @@ def index_leg(rep, tier, exe, stats, tlc_stats):
     results = {}
     for g in groups:
         with ThreadPoolExecutor(len(g)) as ex:
-            futs = {c[0]: ex.submit(vlib.tlc, "PathIndex", c[0], workers=min(c[3], cap), coverage=(tier == "thorough"),
+            # -coverage roughly doubles TLC's time: the big configuration runs without it, the other thorough
+            # configurations (same module, same actions) with it
+            futs = {c[0]: ex.submit(vlib.tlc, "PathIndex", c[0], workers=min(c[3], cap),
+                                    coverage=(tier == "thorough" and c[0] != "PathIndex_E.cfg"),
                                     timeout=c[2] * (3 if cap < 8 else 1), heap="3g" if cap < 8 else "4g") for c in g}
             for k, f in futs.items():
                 results[k] = f.result()
@@ -127,7 +130,7 @@ def index_leg(rep, tier, exe, stats, tlc_stats):
             # the transcribed algorithm disagrees with the reference: a statement about the algorithm in utils.rs
             rep.mismatch("model_invariant", "index_get", expected=f"{r.violated} holds", actual="violated",
                          detail=r.out[-1500:], script={"leg": "model", "cfg": cfg})
-        if tier == "thorough":
+        if tier == "thorough" and cfg != "PathIndex_E.cfg":
             vac = vlib.vacuous_actions(r)
             if vac or "Next" not in r.coverage:
                 raise vlib.ToolError(f"{cfg}: vacuous actions {vac} (coverage {list(r.coverage)[:5]})")
